@@ -16,8 +16,10 @@ DECIDED = ["R08a insert_edge fails without effect on a missing endpoint (DOM)",
            "R08c properties die with the element (post-dominance, inter-procedural one level)",
            "R08d sign discipline of ids (TABLE)",
            "R08b (cont.) node_edges filters nothing but self-loops",
-           "R08e a freed graph slot is fully reset"]
-UNDECIDED = ["adjacency-list unlinking and free-slot stack correctness over histories (pointer arithmetic)",
+           "R08e a freed graph slot is fully reset",
+           "R08f from/to sibling functions of the graph module are mirror images (SIBLING over calls and field accesses)"]
+UNDECIDED = ["adjacency-list unlinking and free-slot stack correctness over histories (pointer arithmetic; only the mirror "
+             "agreement of the outgoing and the incoming variant is decided)",
              "counts matching the abstract graph (needs execution)"]
 
 G = "agdb::graph::GraphImpl::"
@@ -58,6 +60,70 @@ def r08c(ctx):
                    "element's values: a later element reusing the id would inherit them" % (name, c.split("::")[-1]), b.loc(i))
     ctx.floor("R08c", "graph slot removals in DbImpl outside rollback", n, 3)
 
+
+
+def _sigma(name):
+    return "_".join({"from": "to", "to": "from"}.get(x, x) for x in name.split("_"))
+
+
+def _mirror_events(b):
+    """multiset of (graph-module callee | self.<field> access) of a body, from<->to renamed on request"""
+    import collections
+    ev = collections.Counter()
+    for i, t in cfg.calls(b):
+        n = common.norm(cfg.callee(t) or cfg.callee_decl(t) or "?")
+        conv = (cfg.callee_decl(t) or "").endswith(("convert::From::from", "convert::Into::into"))
+        if not conv and (n.startswith("agdb::graph::") or n.startswith("<agdb::graph::")):
+            ev[("call", n.split("::")[-1])] += 1
+        else:
+            ev[("ext", n)] += 1
+    for bi, blk in enumerate(b.blocks):
+        if blk.get("cleanup"):
+            continue
+        for s_ in blk["s"]:
+            r = s_.get("r")
+            if not r:
+                continue
+            for o in cfg.rvalue_operands(r):
+                pl = cfg.op_place(o)
+                if pl and pl[0] == 1:
+                    f = [e for e in pl[1:] if isinstance(e, str) and e.startswith(".")]
+                    if f:
+                        ev[("field", f[0][1:])] += 1
+    return ev
+
+
+def mirror_rule(ctx, rule="R08f"):
+    """SIBLING rule over the graph module: every pair of functions whose names differ by from<->to (outgoing vs incoming
+    adjacency: accessors, list heads, list walks, unlinking, counters) must be mirror images: the same multiset of
+    graph-module calls and self-field accesses after renaming from<->to.  A successor read from the other list while
+    unlinking (`to_meta` in remove_from_edge) splices one node's outgoing list into another node's incoming list."""
+    import collections
+    fa = ctx.facts
+    bodies = {}
+    for b in fa.bodies.values():
+        if b.crate == "agdb" and b.file.startswith("agdb/src/graph") and not b.root and "::tests::" not in b.path:
+            bodies.setdefault(common.norm(b.npath), b)
+    n = 0
+    for name, b in sorted(bodies.items()):
+        last = name.split("::")[-1]
+        if "from" not in last.split("_"):
+            continue
+        twin = "::".join(name.split("::")[:-1] + [_sigma(last)])
+        tb = bodies.get(twin)
+        if tb is None or twin == name:
+            continue
+        n += 1
+        ef = _mirror_events(b)
+        et = _mirror_events(tb)
+        efs = collections.Counter()
+        for (k, v), c in ef.items():
+            efs[(k, _sigma(v) if k in ("call", "field") else v)] += c
+        ok = efs == et
+        ctx.ob(rule, "%s~%s" % (name.split("::", 2)[-1], _sigma(last)), ok, "mirror images under from<->to" if ok else
+               "`%s` and `%s` are not mirror images under from<->to: only in the first (renamed): %s; only in the second: %s" % (
+                   name, twin, sorted(dict(efs - et).items()), sorted(dict(et - efs).items())), b.where)
+    ctx.floor(rule, "from/to sibling pairs of the graph module", n, 14)
 
 
 def run(ctx):
@@ -178,7 +244,9 @@ def r08d(ctx):
     b = ctx.anchor("R08d", DB + "graph_index")
     if b:
         ok = False
-        detail = "graph_index: `id.cmp(&0)` match not found (idiom not recognised)"
+        detail = ("graph_index no longer dispatches on the sign of the id (`id.cmp(&0)` match not found): a negative id must "
+                  "resolve only through graph.edge and a positive one only through graph.node, because the validators look "
+                  "at the slot |id| alone")
         for m in fa.matches(b.path):
             if "Ordering" not in m["scrut_ty"]:
                 continue
@@ -208,4 +276,5 @@ def r08d(ctx):
             ctx.ob("R08d", "%s:index-sign" % fn, ok,
                    ("edge index = -(free index)" if want_neg else "node index = free index (positive)") if ok else
                    "%s builds its returned index with the wrong sign (negated: %s)" % (fn, neg), b.where)
+    mirror_rule(ctx)
     return 0
